@@ -2,7 +2,7 @@
   Main.lean — line-protocol driver of the model.  `seedmodel tok|ast|astexpr` reads hex-encoded
   sources from stdin, one per line, and prints the same blocks as the implementation's hooks.
 -/
-import SeedModel.Dump
+import SeedModel.Run
 open Seed
 
 def unhexDigit (c : Char) : Option Nat :=
@@ -33,6 +33,22 @@ partial def loop (h : IO.FS.Stream) (out : IO.FS.Stream) (f : List Char → Stri
   | some src => out.putStr (f src ++ "END\n")
   loop h out f
 
+partial def runLoop (h : IO.FS.Stream) (out : IO.FS.Stream) (nonce : String) (path : List Char) (fuel : Nat) (i : Nat) : IO Unit := do
+  let line ← h.getLine
+  if line.isEmpty then return ()
+  out.putStr s!"BEGIN {nonce} {i}\n"
+  match decodeLine line with
+  | none => out.putStr s!"STATUS {nonce} badinput x\n"
+  | some src =>
+    let o := run fuel path src
+    for l in o.out do
+      out.putStr (String.ofList l ++ "\n")
+    let code := match o.status with
+      | .success => "0" | .failed => "103" | .crashed => "101" | .timeout => "timeout"
+    out.putStr s!"STATUS {nonce} {code} {hexChars o.stderr}\n"
+  out.putStr s!"END {nonce} {i}\n"
+  runLoop h out nonce path fuel (i + 1)
+
 def main (args : List String) : IO UInt32 := do
   let stdin ← IO.getStdin
   let stdout ← IO.getStdout
@@ -40,4 +56,6 @@ def main (args : List String) : IO UInt32 := do
   | ["tok"] => loop stdin stdout dumpTokens; stdout.flush; return 0
   | ["ast"] => loop stdin stdout dumpAst; stdout.flush; return 0
   | ["astexpr"] => loop stdin stdout dumpAstExpr; stdout.flush; return 0
+  | ["run", nonce, path, fuel] =>
+    runLoop stdin stdout nonce path.toList (fuel.toNat?.getD 100000) 0; stdout.flush; return 0
   | _ => IO.eprintln "usage: seedmodel tok|ast|astexpr|run"; return 2
